@@ -188,7 +188,7 @@ func (d *registryDriver) Next(w *World, step int) string {
 		c := &regRPC{r: d.nextR, via: d.pickVia()}
 		d.nextR++
 		d.cur = c
-		return fmt.Sprintf("cnew r=%d t=0 shape=U method=auto md=- via=%s opts=x", c.r, c.via)
+		return fmt.Sprintf("cnew r=%d t=0 shape=U method=auto md=- via=%s opts=x,t,h,c credmd=tok=abc", c.r, c.via)
 	case len(mv) > 6 && mv[:5] == "CLOSE":
 		var n int
 		fmt.Sscanf(mv[6:], "%d", &n)
@@ -241,7 +241,7 @@ func newRegistryRawDriver(name string, seed int64) *registryRawDriver {
 	}
 	r := 0
 	for i, n := 0, 2+rng.Intn(5); i < n; i++ {
-		d.script = append(d.script, fmt.Sprintf("cnew r=%d t=0 shape=U method=auto md=- via=%s opts=x", r, vias[rng.Intn(len(vias))]))
+		d.script = append(d.script, fmt.Sprintf("cnew r=%d t=0 shape=U method=auto md=- via=%s opts=x,t,h,c credmd=tok=abc", r, vias[rng.Intn(len(vias))]))
 		r++
 		d.script = append(d.script, "ready via="+vias[rng.Intn(len(vias))])
 	}
